@@ -274,7 +274,7 @@ fn signature(c: &Case, msg: &str) -> String {
 
 pub fn run(ctx: &Ctx, rep: &mut Report) {
     let ps = paths();
-    rep.rule = format!("enumerated grid: entry point in {:?} (every kernel the hook exposes that `supported()` reports on this CPU, plus the public dispatchers) x op in {{add, mul, fma, fma_binary}} x length in 0..=320 U {{511,512,513,1280,4099}} x destination start offset 0..=63 inside a 64-byte aligned arena (source offset derived independently) x scalars (quick: all 256 at 24 lengths with offsets {{0,1,63}}, {{0,1,2,0x1D,0x80,0xFF}} + 2 generated elsewhere; thorough: all 256 everywhere at offsets {{0,1,31,63}} and 8 scalars at every offset) x contents (random, 0x00, 0xFF, one-hot at each of the first/last three positions). The packed operand of fma_binary is built by the harness from the documented layout. Oracle: element-wise model with the polynomial multiplier + canaries around the destination and source. Non-trivial = length >= one vector width of the kernel with length mod width != 0 and scalar not in {{0,1}}; distinct by (path, op, len, offset, scalar, content).", ps.iter().map(|p| path_name(*p)).collect::<Vec<_>>());
+    rep.rule = format!("enumerated grid: entry point in {:?} (every kernel the hook exposes that `supported()` reports on this CPU, plus the public dispatchers) x op in {{add, mul, fma, fma_binary}} x length in 0..=320 U {{511,512,513,1280,4099}} x destination start offset 0..=63 inside a 64-byte aligned arena (source offset derived independently) x scalars (quick: all 256 at offsets {{0,1,31,63}} for every length and at every 8th offset for 24 special lengths, {{0,1,2,0x1D,0x80,0xFF}} + 2 generated elsewhere; thorough: all 256 at every offset) x contents (random, 0x00, 0xFF, one-hot at each of the first/last three positions). The packed operand of fma_binary is built by the harness from the documented layout. Oracle: element-wise model with the polynomial multiplier + canaries around the destination and source. Non-trivial = length >= one vector width of the kernel with length mod width != 0 and scalar not in {{0,1}}; distinct by (path, op, len, offset, scalar, content).", ps.iter().map(|p| path_name(*p)).collect::<Vec<_>>());
     rep.exhaustive = ctx.tier == Tier::Thorough;
     rep.assumptions.push("NEON kernels cannot execute on this x86-64 host; they are not covered".into());
     if cfg!(debug_assertions) {
@@ -303,7 +303,7 @@ pub fn run(ctx: &Ctx, rep: &mut Report) {
             let special = SPECIAL_LENS.contains(&len);
             for d_off in 0..64usize {
                 let mut scalars: Vec<u8> = vec![0, 1, 2, 0x1D, 0x80, 0xFF, rng.next_u64() as u8, rng.next_u64() as u8];
-                let all_scalars = if thorough { [0usize, 1, 31, 63].contains(&d_off) } else { special && [0usize, 1, 63].contains(&d_off) };
+                let all_scalars = if thorough { true } else { [0usize, 1, 31, 63].contains(&d_off) || (special && d_off % 8 == 7) };
                 if all_scalars {
                     scalars = (0..=255u8).collect();
                 }
